@@ -72,4 +72,12 @@ def otRoundF (f : Fmt) (x : FVal) : FVal := floor (add f x half)
 `OtRound<u16>` for `f32`, `f64`; each component of `OtRound<(i16, i16)> for kurbo::Point`. -/
 def otRoundInt (f : Fmt) (lo hi : Int) (x : FVal) : Int := toIntSat lo hi (otRoundF f x)
 
+/-- `OtRound<(i16, i16)> for kurbo::Point`: `(self.x.ot_round(), self.y.ot_round())` (f64 → i16). -/
+def otRoundPoint (x y : FVal) : Int × Int :=
+  (otRoundInt f64 (-32768) 32767 x, otRoundInt f64 (-32768) 32767 y)
+
+/-- `OtRound<Vec2> for kurbo::Vec2`: `Vec2::new((self.x + 0.5).floor(), (self.y + 0.5).floor())`. -/
+def otRoundVec2 (x y : FVal) : FVal × FVal :=
+  (floor (add f64 x half), floor (add f64 y half))
+
 end FontVerif.FixedConv
